@@ -10,6 +10,7 @@ from checks import c02_affine
 from checks import common_rows as R
 
 from optimum.quanto import Calibration, QBytesTensor, QTensor, absmax_scale, quantize, quantize_activation, quantize_weight
+from optimum.quanto.nn import QModuleMixin
 
 ACT = {"none": None, "qint8": O.QT8["qint8"], "qfloat8_e4m3fn": O.QT8["qfloat8_e4m3fn"], "qfloat8_e5m2": O.QT8["qfloat8_e5m2"]}
 
@@ -351,6 +352,45 @@ def exec_calib(case):
                 out.fail(f"{tag}/{sn}-{v}/{'all-degenerate' if 'normal' not in case['batches'] else 'mixed'}-batches",
                          f"{name}.{sn} = {s.item()!r} after calibrating on batches {case['batches']} ({case['aq']}, weights {case['wq']}, {case['dtype']})")
                 return out
+    if len(batches) == 1 and qin is None:
+        # (float batches: a batch quantized upstream with another qtype is requantized by the first module, whose range was
+        # evaluated before that requantization -- the bound below would have to include that extra rounding)
+        # calibrated on ONE batch, a fresh model run on that very batch: every module sees the input it was calibrated on, so the
+        # range each output scale covers contains the module's own raw (pre-quantization) output -- nothing saturates, the error of
+        # every quantized activation obeys the bound of C01 (half a step inside the range)
+        raws, outs, undo = {}, {}, []
+        for name, m in model.named_modules():
+            if isinstance(m, QModuleMixin) and m.activation_qtype is not None:
+                def wrap(orig, name=name):
+                    def qforward(inp):
+                        r_ = orig(inp)
+                        raws[name] = r_.dequantize().detach().clone() if isinstance(r_, QTensor) else r_.detach().clone()
+                        return r_
+                    return qforward
+                m.qforward = wrap(m.qforward)
+                undo.append(m)
+                undo.append(m.register_forward_hook(lambda mod, i_, o_, name=name: outs.__setitem__(name, (o_._scale.detach().clone() if isinstance(o_, QBytesTensor) else None))))
+        with torch.no_grad():
+            y = cut(lambda: model(feed(batches[0])))
+        for h in undo:
+            if isinstance(h, torch.nn.Module):
+                del h.qforward
+            else:
+                h.remove()
+        if isinstance(y, Raised):
+            return out.fail(f"{tag}/inference-raises:{y.type}", y.text)
+        G = float(O.grid(aq)[-1])
+        u, eta = gen.U[dtype], gen.ETA[dtype]
+        for name, raw in raws.items():
+            sc = outs.get(name)
+            if sc is None or sc.numel() != 1 or not bool(torch.isfinite(raw).all()):
+                continue
+            so, top = float(sc.to(torch.float64)), float(raw.to(torch.float64).abs().max())
+            if top > so * G * (1 + 4 * u) + G * eta:
+                out.fail(f"{tag}/calibration-batch-saturates", f"module {name}: on the very batch it was calibrated on ({case['batches'][0]}), its raw output reaches {top:.6g} but the calibrated range is "
+                                                               f"output_scale * {G:g} = {so * G:.6g} ({case['aq']}, {case['dtype']}, {case['model']})")
+                break
+        out.klass.append("single-batch")
     for which, inp in [("probe", probe)] + [(b, x) for b, x in zip(case["batches"], batches)]:
         # inference on an ordinary batch, and on the degenerate batches themselves
         with torch.no_grad():
